@@ -1,0 +1,9 @@
+// SPDX-FileCopyrightText: 2026 The Pion community <https://pion.ly>
+// SPDX-License-Identifier: MIT
+
+//go:build !verif
+
+package webrtc
+
+// verifYield marks a point between two critical sections; it does nothing unless built with -tags verif.
+func verifYield(string) {}
